@@ -403,3 +403,126 @@ def mode_is(fact, variant, what="publish_mode", variants=("FullFDT", "ObjectsBei
         return None
     v, t = m
     return t if v == variant else (not t)
+
+
+def foreach_sites(prog, func, collection_regex, callee_pred, unconditional=True):
+    """Where does `func` apply a call (callee_pred(path) -> bool) to EVERY element of an iteration over a collection whose access path matches
+    collection_regex?  Two source idioms are the same statement:
+      (a) an iterator adaptor driven to the end (`for_each`, or `map/filter/..` finished by `collect/count/for_each/last/sum`) whose closure makes
+          the call on every path to its return;
+      (b) an explicit `for`/`while let` loop: the `next()` call polled in `func` on an iterator over the collection, with the call made on every
+          path from the `Some` edge back to the `next()`.
+    Returns a list of (bb, how, site): bb is the block of `func` that stands for the whole iteration (the adaptor call, or the `next()` call that
+    also ends the loop) - the block to use in dominance / post-dominance questions."""
+    out = []
+    sl = Slicer(func.body)
+    flow = Flow(func.body)
+    rx_ = re.compile(collection_regex)
+
+    def over_collection(e):
+        # the iterator expression, with single-definition locals substituted, is built from the collection: `IterMut::next(&into_iter(&self.objects))`
+        txt = show(sl.expand(e), 2000)
+        # a loop iterator is a named local that is assigned once and then only borrowed mutably by next(): follow its plain assignments
+        seen_ = set()
+        work_ = [z for z in walk(e) if z[0] == "var"]
+        while work_:
+            v = work_.pop()
+            if v[1] in seen_ or len(seen_) > 6:
+                continue
+            seen_.add(v[1])
+            for (pj, d, _bb) in sl.var_defs().get(v[1], []):
+                if pj == "" and not (d[0] == "call" and any(show(a_) in ("&" + v[1], v[1]) for a_ in d[2])):
+                    txt += " " + show(sl.expand(d), 2000)
+                    work_.extend(z for z in walk(d) if z[0] == "var")
+        return any(rx_.search(m) for m in re.findall(r"[A-Za-z_][\w~]*(?:\.[\w@]+)*", txt))
+
+    # (a) adaptors
+    for s in call_sites(func, lambda p, c: re.search(r"Iterator::(for_each|try_for_each|map|filter|filter_map|inspect|all|any|fold|find|find_map|position)$", p) is not None):
+        if not over_collection(s.expr):
+            continue
+        for z in sl.sources(s.expr, control=False):
+            if not z.startswith("closure:"):
+                continue
+            cf = prog.funcs.get(z[len("closure:"):])
+            if cf is None:
+                continue
+            cs = call_sites(cf, lambda p, c: callee_pred(p))
+            if not cs:
+                continue
+            if unconditional:
+                cflow = Flow(cf.body)
+                ok, _w = cflow.must_pass(0, cf.body.return_blocks(), lambda n: n[0] == "b" and n[1] in set(x.bb for x in cs))
+                if not ok and 0 not in set(x.bb for x in cs):
+                    continue
+            m = s.term.callee_path() or ""
+            if re.search(r"::(for_each)$", m):
+                out.append((s.bb, "adaptor " + m.split("::")[-1], s))
+            # lazy adaptors (`map`, `filter`, ...) are driven by a later consumer in the same function: use the consumer's block
+            elif re.search(r"::(map|filter|filter_map|inspect)$", m):
+                for c2 in call_sites(func, lambda p, c: re.search(r"Iterator::(collect|count|for_each|last|sum|max|min)$|::extend$|FromIterator::from_iter$", p) is not None):
+                    if any(show(s.expr, 400) in show(sl.expand(a), 2000) or show(s.expr, 400) in show(a, 2000) for a in c2.expr[2]):
+                        out.append((c2.bb, "adaptor %s + %s" % (m.split("::")[-1], (c2.term.callee_path() or "").split("::")[-1]), s))
+    # (b) explicit loops
+    nexts = call_sites(func, lambda p, c: re.search(r"Iterator(<.*>)?>?::next$|::next$", p) is not None)
+    for nx in nexts:
+        if not over_collection(nx.expr):
+            continue
+        some_edges = []
+        for blk in func.body.blocks:
+            if blk.term.k != "switch":
+                continue
+            for k in range(len(blk.term.targets) + 1):
+                n = ("e", blk.i, k)
+                for (a, t) in flow.edge_facts(n):
+                    if a[0] == "variant" and ((a[2] == "Some") == t) and a[2] in ("Some", "None") and show(a[1], 400) == show(nx.expr, 400):
+                        some_edges.append(n)
+        if not some_edges:
+            continue
+        elem = "var:%s@Some.0" % show(nx.expr, 400)
+        cs = [c for c in call_sites(func, lambda p, c: callee_pred(p))
+              if any(show(nx.expr, 400) in show(sl.expand(a), 2000) or elem in sl.sources(a, control=False) for a in c.expr[2])]
+        if not cs:
+            continue
+        good = True
+        if unconditional:
+            for n in some_edges:
+                tgt = flow.succ(n)[0][1]
+                if tgt in set(x.bb for x in cs):
+                    continue
+                ok, _w = flow.must_pass(tgt, [nx.bb], lambda m_: m_[0] == "b" and m_[1] in set(x.bb for x in cs))
+                if tgt == nx.bb or not ok:
+                    good = False
+        if good:
+            out.append((nx.bb, "loop", nx))
+    return out
+
+
+def comparisons(func, expand=True):
+    """every ordering / equality comparison evaluated in the body, wherever its result goes (a branch, a local, an argument of `&&`):
+    list of (fact, bb) with fact = (('lt'|'le'|'eq', a, b), True) in canonical orientation, operands with single-definition locals substituted"""
+    from .cfg import facts_of
+    body = func.body
+    sl = Slicer(body)
+    out = []
+    seen = set()
+
+    def add(e, bb):
+        for (a, t) in facts_of(e, True):
+            if a[0] in ("lt", "le", "eq"):
+                x_, y_ = (sl.expand(a[1]), sl.expand(a[2])) if expand else (a[1], a[2])
+                k = (a[0], show(x_, 400), show(y_, 400), t)
+                if k not in seen:
+                    seen.add(k)
+                    out.append((((a[0], x_, y_), t), bb))
+    for blk in body.blocks:
+        if blk.cleanup:
+            continue
+        for s in blk.stmts:
+            if s.k == "assign" and s.rv.k == "bin" and s.rv.j.get("op") in ("Eq", "Ne", "Lt", "Le", "Gt", "Ge"):
+                add(sl.x.rvalue(s.rv, sl.x.depth), blk.i)
+        t = blk.term
+        if t.k == "switch":
+            add(sl.x.operand(t.discr), blk.i)
+        elif t.k == "call" and re.search(r"Partial(Ord|Eq)::(lt|le|gt|ge|eq|ne)$", t.callee_path() or ""):
+            add(sl.x.call_expr(blk.i, t, sl.x.depth), blk.i)
+    return out
